@@ -5,8 +5,12 @@ import unicodedata as pyud
 from ufo import build, rat
 
 ID = "C05"
-PROOF_FILES = ["C05Order", "C05Quant", "C05Groups", "C05Ufo", "C05Merge", "C05Split", "C05Part", "C05Reg", "C05Together", "C05"]
-THEOREM = ("Ufo2ft.C05.C05_precedence / C05_ufo_value / C05_ufo_some / C05_ufo_none (first match of the sorted rules = rounded UFO value), "
+PROOF_FILES = ["C05Order", "C05Quant", "C05Groups", "C05Ufo", "C05Merge", "C05Split", "C05Part", "C05Reg", "C05Together", "C05",
+               "C05ApplyLookup", "C05ApplyMap", "C05ApplyProg", "C05ApplyBuckets", "C05ApplyParts", "C05ApplyCells", "C05ApplyRules",
+               "C05ApplyDet", "C05Apply", "C05ApplyEx"]
+THEOREM = ("Ufo2ft.C05.C05_end_to_end (applyKern (program ...) tag g1 g2 = quantize (ufoKern ...): the GPOS application semantics on the emitted "
+           "program gives the rounded UFO value, as placement too in right-to-left scripts), C05_marks_never_in_base_lookup; stages: "
+           "Ufo2ft.C05.C05_precedence / C05_ufo_value / C05_ufo_some / C05_ufo_none (first match of the sorted rules = rounded UFO value), "
            "sortPairs_sorted, firstMatch_minimal, quantize_near, mergeFix_apart / mergedSets_unique / mergeScripts_perm, "
            "split_count / split_where / split_sound, partition_sound / partition_disjoint / partition_complete, splitKerning_together, "
            "C05_register / C05_dflt")
@@ -23,10 +27,25 @@ RULE = ("random kerning fonts: repertoire drawn from Latin, Cyrillic, Greek, Ara
         "ones, plus digits / punctuation / a combining mark / alternates, same group and kerning generators - compiled with BOTH shipped "
         "writers (kernFeatureWriter and kernFeatureWriter2); for every script tag of the font (a tag missing from the ScriptList falls back "
         "to DFLT, as in a shaper) the adjustment applied to every ordered glyph pair of one script run must be the same in the two fonts; "
-        "non-trivial there = both fonts kern something.")
+        "non-trivial there = both fonts kern something. "
+        "Third request per font of stream 1 (op apply): the Lean GPOS application semantics `applyKern` (Spec/C05Apply.lean: feaLib's PairPos "
+        "layout - glyph pairs and enum pairs first-definition-wins in format 1, class pairs in format-2 subtables with ClassDefBuilder.canAdd "
+        "breaks, a format-2 subtable matches once the first glyph is covered -, lookups in emission order, adjustments add, rule-less "
+        "lookups are not built, unregistered tags fall back to DFLT) evaluated on the MODEL's program for every script tag (those of the "
+        "compiled ScriptList, those the writer registered, DFLT, and one tag registered nowhere) and every ordered glyph pair, against the "
+        "table the independent interpreter gpos.pair_adjust reads from the COMPILED font: any difference is a correspondence failure. The "
+        "driver also evaluates the decidable hypothesis bundle `e2eHyp` of C05_end_to_end for every (script, tag, g1, g2) and reports how "
+        "many triples it covers (evidence: main_theorem_hypotheses; info.e2e_met) - and, redundantly, that the conclusion holds on them.")
 ASSUMED = ["Unicode script / script-extension / bidi data and the GSUB closure are inputs (the model takes the implementation's classification; "
            "the property predicate uses an independent one computed from the stdlib unicodedata and the generated GSUB rules)",
-           "feaLib compiles the emitted statements as written (specific pairs before class pairs; first definition wins)",
+           "feaLib compiles the emitted statements as written (specific pairs before class pairs; first definition wins) - since op apply: "
+           "tied on every generated font (the Lean application semantics on the model's program == the interpreter on the compiled font)",
+           "C05_end_to_end: lookup flags (IgnoreMarks / mark filtering set) only decide which glyphs BETWEEN two glyphs are skipped; for an "
+           "adjacent pair they do not change which rule applies (C05_marks_never_in_base_lookup: no mark glyph is ever in a rule of an "
+           "IgnoreMarks lookup); default language system only (every declared language references the same lookups)",
+           "C05_end_to_end hypotheses (decidable, evaluated by the driver): wfKern, ctxOK (Common is the one 'Auto' script; all scripts of "
+           "a glyph have one direction), both glyphs of the script or neutral, the script's feature is written (featOn), distinct lookup "
+           "names (namesOK), and cellClean = the pair is outside the three known bidi-cell shapes (stated on the determining cell only)",
            "kernFeatureWriter2 (the second shipped writer) is not modelled: it is compared end-to-end with writer 1 on single-direction fonts "
            "(equality of the applied adjustments, evaluated by the Lean driver)",
            "wfKern (valid UFO 3 groups, distinct group names and kerning keys, no glyph named like a kerning group) for the UFO-value theorem; "
@@ -363,8 +382,41 @@ def run(case):
     tags = [case["lib"], "q:%s" % case["q"], "ignoreMarks:%s" % case["ignoreMarks"], "langsys:%s" % bool(case["langsys"]),
             "gdef:%s" % case["gdef"], "err:" + str(obs.get("err")), "scripts:%d" % len([s for s in scripts if s not in ("Zyyy", "Zinh")])] + \
         (["bidir"] if len(dirs) > 1 else []) + (["skipped"] if rec.get("skipped") else []) + (["alts"] if case["alts"] else [])
-    return [{"op": "kern", "in": inp, "obs": obs, "tags": tags,
+    reqs = [{"op": "kern", "in": inp, "obs": obs, "tags": tags,
              "nontrivial": (len(dirs) > 1 or depth2) and any(e for _, e in applied)}]
+    if obs["err"] is None:
+        reqs.append(_apply_request(tt, names, inp, rec["program"], tags, (len(dirs) > 1 or depth2)))
+    return reqs
+
+
+def _apply_request(tt, names, inp, program, tags, rich):
+    """op "apply": the adjustment table of the COMPILED font (independent interpreter gpos.pair_adjust) for every script tag - the
+    tags of the compiled ScriptList, the tags the writer registered, DFLT and one tag that is registered nowhere (a shaper falls
+    back to DFLT) - and every ordered pair of the font's glyphs, against `applyKern` evaluated in Lean on the MODEL's program."""
+    import gpos
+    sf = gpos.script_features(tt) if "GPOS" in tt else {}
+    order = set(tt.getGlyphOrder())
+    gl = [g for g in names if g in order]
+    atags = sorted(set(sf) | {r[0] for r in program["kern"]} | {r[0] for r in program["dist"]} | {"DFLT", "zzzz"})
+    table = []
+    for tag in atags:
+        lk = gpos.lookups_for(tt, tag if tag in sf else "DFLT", "dflt", {"kern", "dist"}) if sf else None
+        ent = []
+        if lk:
+            for g1 in gl:
+                for g2 in gl:
+                    a = gpos.pair_adjust(tt, lk, g1, g2)
+                    if a[0] or a[1] or a[2] or a[3]:
+                        ent.append([g1, g2, rat(a[0]), rat(a[1])] if not (a[2] or a[3]) else [g1, g2, "999999", "999999"])
+        table.append([tag, ent])
+    ainp = dict(inp)
+    ainp["applyTags"] = atags
+    # script tags that are in the ScriptList only because another (hand-written) positioning feature is registered there
+    ainp["otherTags"] = sorted(t for t in sf if not any(f in ("kern", "dist") for feats in sf[t].values() for f, _ in feats))
+    ainp["applyGlyphs"] = gl
+    return {"op": "apply", "in": ainp, "obs": {"table": table, "err": None},
+            "tags": ["apply"] + [t for t in tags if t in ("bidir", "alts")] + (["apply:unregistered-tag-falls-back"] if sf else []),
+            "nontrivial": rich and any(e for _, e in table)}
 
 
 def agree(req, rep):
@@ -374,6 +426,10 @@ def agree(req, rep):
         return o.get("err") is None and m == {"entries": sum(len(e) for _, e in o["applied1"])}
     if o.get("err") is not None:
         return False
+    if req["op"] == "apply":
+        # the Lean application semantics on the model's program == the independent interpreter on the compiled font
+        # (the second conjunct can never fail: C05_end_to_end is a theorem; it only guards the driver's own evaluation of it)
+        return m == o["table"] and not ((rep.get("info") or {}).get("e2e_bad"))
     p = o["program"]
     return m["lookups"] == p["lookups"] and m["kern"] == p["kern"] and m["dist"] == p["dist"]
 
@@ -532,7 +588,15 @@ def _classify_agree2(r, bad):
     return {"shapes": sorted(shapes)}
 
 
-LEVEL_TEXT = ("Proved (Lean, all inputs): KerningPair.__lt__ is a strict weak order and pairs.sort() yields a sorted permutation; the first "
+LEVEL_TEXT = ("Proved (Lean, all inputs): END-TO-END C05_end_to_end - for well-formed kerning, a Unicode context as fontTools supplies it, two "
+              "glyphs of one script (or neutral), a tag of that script whose feature is written, distinct lookup names, and the pair outside "
+              "the three known bidi-cell shapes (cellClean, on the determining cell only): applyKern(program(inputs), tag, g1, g2) = "
+              "(quantize(ufoKern g1 g2), the same as x-placement iff the script is right-to-left), where applyKern is a GPOS application "
+              "semantics (feaLib PairPos layout, first matching subtable, lookups add, DFLT fallback) tied to the compiled font on every run; "
+              "the composition goes through: first match of the sorted pairs = UFO value; at most one part / one direction cell of a pair "
+              "contains a glyph pair; all cells containing it are in one bucket = one lookup; the rules of a lookup are the bidi-filtered "
+              "sorted cells of its bucket; class rules of a lookup fit one format-2 subtable; the lookup is emitted once and referenced "
+              "under the tag (or under DFLT for neutral pairs); every other emitted lookup contributes zero. Stages: KerningPair.__lt__ is a strict weak order and pairs.sort() yields a sorted permutation; the first "
               "matching rule of the sorted list is a most specific matching rule; for well-formed kerning data (wfKern) it carries exactly "
               "quantize(ufoKern) - glyph-glyph, glyph-group, group-glyph, group-group, zero group-group entries aside - and no rule matches "
               "iff no entry (or a zero group-group entry) determines the pair; quantize is the nearest multiple of a positive step, halves up; "
@@ -546,7 +610,7 @@ LEVEL_TEXT = ("Proved (Lean, all inputs): KerningPair.__lt__ is a strict weak or
               "The full executable model of the kern writer is tied to the code structurally on every run, the UFO-semantics predicate is "
               "evaluated on the compiled GPOS for every glyph pair, and the two shipped writers are compared on single-direction fonts.")
 LEVEL_NOTE = ("Trusted: Lean kernel + standard axioms; correspondence harness incl. the independent GPOS interpreter; Unicode data as input; "
-              "partial: the composition of the proved pieces into one end-to-end theorem 'applyGPOS = ufoKern for every script' (DESIGN C05_once) "
-              "is not stated in Lean - the bidi filter (makeRules) and the bucket/registration chain are checked by correspondence only; the "
-              "bidi-ambiguous class cell is a known finding; writer 2 is compared end-to-end only and differs from writer 1 in right-to-left "
+              "the end-to-end theorem is stated over the Lean GPOS application semantics (Spec/C05Apply.lean), which is itself tied to the "
+              "compiled font by op apply (trusted: that tie is differential); lookup flags are assumed irrelevant for adjacent pairs; the "
+              "three bidi-cell shapes are excluded by the hypothesis cellClean and stay known findings; writer 2 is compared end-to-end only and differs from writer 1 in right-to-left "
               "fonts with digits or Arabic marks (known finding).")
